@@ -83,9 +83,19 @@ pub fn run_widths(cases_path: &str, report_path: &str, opts: &[String]) {
                             let id = 10 + gi as u64;
                             extra.push((id, format!("[{}]", ws.join(" ")).into_bytes()));
                             w += &format!("{} {} 0 R ", c, id);
+                        } else if ci % 5 == 3 {
+                            // the first width of the list as a reference to a number
+                            let id = 20 + gi as u64;
+                            extra.push((id, ws[0].clone().into_bytes()));
+                            w += &format!("{} [{} 0 R {}] ", c, id, ws[1..].join(" "));
                         } else {
                             w += &format!("{} [{}] ", c, ws.join(" "));
                         }
+                    } else if ci % 5 == 4 && !by_ref {
+                        // the width of the range as a reference to a number
+                        let id = 30 + gi as u64;
+                        extra.push((id, g["w"].to_string().into_bytes()));
+                        w += &format!("{} {} {} 0 R ", c, g["d"].as_u64().unwrap() + off, id);
                     } else {
                         w += &format!("{} {} {} ", c, g["d"].as_u64().unwrap() + off, g["w"]);
                     }
@@ -135,7 +145,16 @@ pub fn run_widths(cases_path: &str, report_path: &str, opts: &[String]) {
                 let c = g["c"].as_u64().unwrap() + (off % 200);
                 let ws: Vec<f64> = g["ws"].as_array().unwrap().iter().map(|x| x.as_f64().unwrap()).collect();
                 let txt: Vec<String> = ws.iter().map(|x| x.to_string()).collect();
-                let objs = vec![(1u64, format!("<< /Type /Font /Subtype /Type1 /BaseFont /Helvetica /FirstChar {} /LastChar {} /Widths [{}] >>", c, c + ws.len() as u64 - 1, txt.join(" ")).into_bytes())];
+                // the four kinds of simple font; the width list direct, as a reference, or with one width as a reference to a number
+                let subtype = ["/Type1 /BaseFont /Helvetica", "/TrueType /BaseFont /Arial", "/MMType1 /BaseFont /Helvetica_150_300",
+                               "/Type3 /FontBBox [0 0 1 1] /FontMatrix [0.001 0 0 0.001 0 0] /CharProcs << >> /Encoding << /Type /Encoding /Differences [] >>"][ci % 4];
+                let wtext = match (ci / 4) % 3 {
+                    0 => format!("[{}]", txt.join(" ")),
+                    1 => "7 0 R".to_string(),
+                    _ => format!("[8 0 R {}]", txt[1..].join(" ")),
+                };
+                let objs = vec![(1u64, format!("<< /Type /Font /Subtype {} /FirstChar {} /LastChar {} /Widths {} >>", subtype, c, c + ws.len() as u64 - 1, wtext).into_bytes()),
+                                (7, format!("[{}]", txt.join(" ")).into_bytes()), (8, txt[0].clone().into_bytes())];
                 let bytes = doc_with(&objs, &[]);
                 rep.execs += 1;
                 match load_font(&bytes, 1) {
